@@ -31,6 +31,7 @@ import CB.Lemmas.C01Leak2
 import CB.Lemmas.C01Leak3
 import CB.Lemmas.C01Leak4
 import CB.Lemmas.C01Leak5
+import CB.Lemmas.C01Leak6
 import CB.Model.Extracted
 namespace CB.P01
 open CB CB.Leak CB.Leak.Sec
@@ -349,6 +350,44 @@ theorem inv_mod2_62_ni (v₁ v₂ : Sec) : (invMod262 v₁).tr = (invMod262 v₂
 theorem unsat_norm_ni (n : Nat) (m₁ v₁ m₂ v₂ : List Sec) (c₁ c₂ : Sec) :
     (unsatNorm n m₁ v₁ c₁).tr = (unsatNorm n m₂ v₂ c₂).tr := by simp
 
+/-! ### extension round: special-modulus forms, `mul_mod`, `div_by_2`, linear combinations -/
+
+/-- `Uint::add_mod_special` / `sub_mod_special` / `mul_mod_special` (modulus `2^BITS − c`, `c` secret too), `double_mod` -/
+theorem uint_add_mod_special_ni (n : Nat) (a₁ b₁ a₂ b₂ : List Sec) (c₁ c₂ : Sec) :
+    (addModSpecial n a₁ b₁ c₁).tr = (addModSpecial n a₂ b₂ c₂).tr := by simp
+theorem uint_sub_mod_special_ni (n : Nat) (a₁ b₁ a₂ b₂ : List Sec) (c₁ c₂ : Sec) :
+    (subModSpecial n a₁ b₁ c₁).tr = (subModSpecial n a₂ b₂ c₂).tr := by simp
+theorem uint_mul_mod_special_ni (n : Nat) (a₁ b₁ a₂ b₂ : List Sec) (c₁ c₂ : Sec) :
+    (mulModSpecial n a₁ b₁ c₁).tr = (mulModSpecial n a₂ b₂ c₂).tr := by simp
+theorem uint_double_mod_ni (n : Nat) (a₁ p₁ a₂ p₂ : List Sec) : (doubleMod n a₁ p₁).tr = (doubleMod n a₂ p₂).tr := by simp
+/-- `mac_by_limb`, `Uint::rem_limb` / `mul_rem` -/
+theorem mac_by_limb_ni (n : Nat) (a₁ b₁ a₂ b₂ : List Sec) (c₁ d₁ c₂ d₂ : Sec) :
+    (macByLimb n a₁ b₁ c₁ d₁).tr = (macByLimb n a₂ b₂ c₂ d₂).tr := by simp
+theorem uint_rem_limb_ni (n : Nat) (u₁ u₂ : List Sec) (d₁ d₂ : Sec) : (remLimb n u₁ d₁).tr = (remLimb n u₂ d₂).tr := by simp
+/-- `MontyParams::new` (the constant-time constructor): at source level not even the modulus shows (the compiled
+divisions by the modulus do: finding C01-modulus-division-compiled-branches) -/
+theorem monty_params_new_ni (n : Nat) (m₁ m₂ : List Sec) : (montyParamsNew n m₁).tr = (montyParamsNew n m₂).tr := by simp
+/-- `MontyForm::new`, `MontyForm::retrieve` -/
+theorem monty_form_new_ni (n : Nat) (x₁ r₁ m₁ x₂ r₂ m₂ : List Sec) (v₁ v₂ : Sec) :
+    (montyFormNew n x₁ r₁ m₁ v₁).tr = (montyFormNew n x₂ r₂ m₂ v₂).tr := by simp
+theorem monty_retrieve_ni (n : Nat) (x₁ m₁ x₂ m₂ : List Sec) (v₁ v₂ : Sec) :
+    (montyRetrieve n x₁ m₁ v₁).tr = (montyRetrieve n x₂ m₂ v₂).tr := by simp
+/-- `square_montgomery_form` (MontyForm `square`) -/
+theorem monty_square_ni (n : Nat) (a₁ m₁ a₂ m₂ : List Sec) (v₁ v₂ : Sec) :
+    (squareMont n a₁ m₁ v₁).tr = (squareMont n a₂ m₂ v₂).tr := by simp
+/-- the inherent `Uint::mul_mod(rhs, p)` (through Montgomery form): factors AND modulus secret -/
+theorem uint_mul_mod_ni (n : Nat) (a₁ b₁ p₁ a₂ b₂ p₂ : List Sec) : (mulMod n a₁ b₁ p₁).tr = (mulMod n a₂ b₂ p₂).tr := by simp
+/-- `div_by_2` (`MontyForm::div_by_2`, `ConstMontyForm::div_by_2`) and the boxed form -/
+theorem div_by_2_ni (n : Nat) (a₁ m₁ a₂ m₂ : List Sec) : (divBy2 n a₁ m₁).tr = (divBy2 n a₂ m₂).tr := by simp
+theorem div_by_2_boxed_ni (n : Nat) (a₁ m₁ a₂ m₂ : List Sec) : (divBy2Boxed n a₁ m₁).tr = (divBy2Boxed n a₂ m₂).tr := by simp
+/-- `impl_longa_monty_lincomb!` over `len` products (a public count) -/
+theorem longa_lincomb_ni (n len : Nat) (ab₁ ab₂ : List (List Sec × List Sec)) (u₁ m₁ u₂ m₂ : List Sec) (v₁ v₂ : Sec) :
+    (longaLincomb n len ab₁ u₁ m₁ v₁).tr = (longaLincomb n len ab₂ u₂ m₂ v₂).tr := by simp
+/-- `lincomb_monty_form` / `lincomb_const_monty_form` (`MontyForm::lincomb_vartime` is variable-time in the NUMBER of
+products only): for a given number of products and `mod_leading_zeros` of the public modulus the trace is fixed -/
+theorem lincomb_monty_ni (n len mlz : Nat) (ab₁ ab₂ : List (List Sec × List Sec)) (m₁ m₂ : List Sec) (v₁ v₂ : Sec) :
+    (lincombMonty n len ab₁ m₁ v₁ mlz).tr = (lincombMonty n len ab₂ m₂ v₂ mlz).tr := by simp
+
 /-! ## T01.2 — `_vartime` operations: the trace is a function of the documented-public operand only -/
 
 /-- `shl_vartime(shift)`: for a fixed shift the trace does not depend on the value -/
@@ -385,6 +424,36 @@ theorem boxed_shl_trace_of_shift (n : Nat) (s : Sec) (a₁ a₂ : List Sec) :
 theorem boxed_shr_trace_of_shift (n : Nat) (s : Sec) (a₁ a₂ : List Sec) :
     (boxedOverflowingShr n a₁ s).tr = (boxedOverflowingShr n a₂ s).tr := by
   rw [boxedOverflowingShr_tr, boxedOverflowingShr_tr]
+
+/-- `multi_exponentiate_bounded_exp` (`cnt` bases, `exponent_bits` public): bases and exponents secret -/
+theorem multi_exponentiate_trace_pub (n cnt ebits : Nat) (bes₁ bes₂ : List (List Sec × List Sec)) (m₁ o₁ m₂ o₂ : List Sec) (v₁ v₂ : Sec) :
+    (multiExp n cnt bes₁ ebits m₁ o₁ v₁).tr = (multiExp n cnt bes₂ ebits m₂ o₂ v₂).tr := by simp
+/-- `rem_wide_vartime` once the divisor's bit length `dbits` is fixed: constant-time in dividend AND divisor -/
+theorem rem_wide_vartime_trace_of_bits (n dbits : Nat) (lo₁ hi₁ d₁ lo₂ hi₂ d₂ : List Sec) :
+    (remWideBody n dbits lo₁ hi₁ d₁).tr = (remWideBody n dbits lo₂ hi₂ d₂).tr := by simp
+/-- `Uint::rem_wide_vartime(lo_hi, rhs)` ("variable only with respect to `rhs`"): for a fixed divisor the trace does not
+depend on the dividend -/
+theorem rem_wide_vartime_trace_pub (n : Nat) (d lo₁ hi₁ lo₂ hi₂ : List Sec) :
+    (remWideVartime n lo₁ hi₁ d).tr = (remWideVartime n lo₂ hi₂ d).tr := by
+  rw [remWideVartime_tr, remWideVartime_tr]
+/-- `Uint::mul_mod_vartime(rhs, p)` — and `<Uint as MulMod>::mul_mod`, which forwards to it without `_vartime` in its
+name: the trace is a function of the modulus `p` only, not of the two factors -/
+theorem mul_mod_vartime_trace_pub (n : Nat) (p a₁ b₁ a₂ b₂ : List Sec) :
+    (mulModVartime n a₁ b₁ p).tr = (mulModVartime n a₂ b₂ p).tr := by
+  rw [mulModVartime_tr, mulModVartime_tr]
+
+/-- `random_mod_core`: one trip of the rejection loop decomposes into the trace of the high-word loop (which branches on
+`hi_word > hi_word_modulus` per drawn word), a public copy loop, the constant-time comparison `n < modulus` and the
+declassified verdict.  So the trace of `random_mod` is a function of the modulus' bit length and of the accept / reject
+pattern of the RNG stream -/
+theorem random_mod_trip_trace (n nl fuel : Nat) (modulus : List Sec) (mask : Sec) (st : List Sec × Sec × List Sec × Bool)
+    (h : st.2.2.2 = false) :
+    (rmTrip n nl fuel modulus mask st).tr =
+      Event.pubIndex (nl - 1) :: ((rmHiLoop fuel (limb modulus (nl - 1)) mask st.2.1 st.2.2.1).tr ++
+        (rmLowLoopT nl ++ (usbbT n ++
+          (declassify (ult n (rmLowLoop nl (rmHiLoop fuel (limb modulus (nl - 1)) mask st.2.1 st.2.2.1).val.2
+              ((zeros n).set (nl - 1) (rmHiLoop fuel (limb modulus (nl - 1)) mask st.2.1 st.2.2.1).val.1)).val modulus).val).tr))) :=
+  rmTrip_tr n nl fuel modulus mask st h
 
 /-! ### safegcd: what the traces of `UnsatInt::mul`, `fg`, `de` and of one trip of `divsteps` are functions of -/
 
@@ -451,6 +520,10 @@ example : squareWideDispatchSizes = [Extracted.squareWideDispatch0, Extracted.sq
 example : Extracted.karatsubaMaxReduceLimbs = 24 ∧ Extracted.karatsubaMinStartingLimbs = 32 ∧
     Extracted.karaSquareReduceFactor = 2 ∧ Extracted.boxedSquareStartFactor = 2 := by decide
 
+example : (multiExp 1 1 [] 4 [] [] zero).tr ≠ (multiExp 1 2 [] 4 [] [] zero).tr := by decide +kernel
+example : (remWideBody 2 64 [] [] []).tr ≠ (remWideBody 2 65 [] [] []).tr := by decide +kernel
+example : (lincombMonty 1 2 [] [] zero 0).tr ≠ (lincombMonty 1 2 [] [] zero 1).tr := by decide +kernel
+
 /-! ## T01.3 — the model catches secret-dependent control flow, addressing and division operands -/
 
 /-- An equality test that returns at the first differing limb has different traces for equal and for
@@ -503,6 +576,20 @@ theorem divsteps_trip_count_leaks :
     (divsteps 1 [one] [ofNat 3] [ofNat (2 ^ 50)] (ofNat 5)).tr.getD 2 (.pubIndex 0) := by
   decide +kernel
 example : (divsteps 1 [one] [ofNat 3] [ofNat (2 ^ 50)] (ofNat 5)).tr.getD 2 (.pubIndex 0) = .declassify 151 := by decide +kernel
+
+/-- `<Uint as MulMod>::mul_mod(&a, &b, &p)` (src/uint/mul_mod.rs:64-70) is not marked vartime but forwards to
+`mul_mod_vartime` → `rem_wide_vartime`: a one-limb modulus and a two-limb modulus give different traces for the same
+factors (PROPOSED finding C01-mulmod-trait-vartime-modulus) -/
+theorem mul_mod_trait_leaks_modulus :
+    (mulModVartime 2 [ofNat 5, ofNat 0] [ofNat 7, ofNat 0] [ofNat 3, ofNat 0]).tr ≠
+    (mulModVartime 2 [ofNat 5, ofNat 0] [ofNat 7, ofNat 0] [ofNat 3, ofNat 1]).tr := by decide +kernel
+
+/-- `random_mod`: a stream whose first candidate is accepted and one whose first candidate is rejected give different traces … -/
+theorem random_mod_reject_pattern_leaks :
+    (randomMod 1 4 [ofNat 5] [ofNat 1, ofNat 2, ofNat 3]).tr ≠ (randomMod 1 4 [ofNat 5] [ofNat 7, ofNat 2, ofNat 3]).tr := by decide
+/-- … while two streams with the same accept / reject pattern (different values) give the same trace up to the values
+carried by the `branchOn` events of the comparison mask -/
+example : (randomMod 1 4 [ofNat 5] [ofNat 1, ofNat 2, ofNat 3]).tr = (randomMod 1 4 [ofNat 5] [ofNat 4, ofNat 9, ofNat 3]).tr := by decide
 
 /-! ## the instrumented model computes what the crate computes (samples; `reveal` is used ONLY here) -/
 
